@@ -29,6 +29,7 @@ type symOp struct {
 	id, attr int64
 	nout     int
 	fail     bool
+	failGate bool
 }
 
 func (s *symOp) String() string { return fmt.Sprintf("sym%d", s.id) }
@@ -41,6 +42,10 @@ func (s *symOp) Init(n *onnx.NodeProto) error {
 			s.nout = int(a.GetI())
 		case "fail":
 			s.fail = a.GetI() == 1
+			s.failGate = a.GetI() == 3
+			if a.GetI() == 2 {
+				return fmt.Errorf("symbolic failure in Init") // a node the operator's Init refuses
+			}
 		}
 	}
 	return nil
@@ -74,6 +79,9 @@ func (s *symOp) GetMinInputs() int                         { return 0 }
 func (s *symOp) GetMaxInputs() int                         { return 16 }
 func (s *symOp) GetInputTypeConstraints() [][]tensor.Dtype { return nil }
 func (s *symOp) ValidateInputs(in []tensor.Tensor) ([]tensor.Tensor, error) {
+	if s.failGate {
+		return nil, fmt.Errorf("symbolic failure in ValidateInputs")
+	}
 	return in, nil
 }
 
@@ -168,12 +176,14 @@ func (c *sgraphCase) proto() *onnx.ModelProto {
 		}
 		g.Initializer = append(g.Initializer, &onnx.TensorProto{Name: n, DataType: 7, Dims: dims, Int64Data: vals})
 	}
-	for _, n := range c.nodes {
+	for ni, n := range c.nodes {
 		fl := int64(0)
 		if n.fail {
-			fl = 1
+			fl = 1 + int64(ni+len(c.nodes))%3 // the failure is raised by Apply, by Init or by ValidateInputs
 		}
-		g.Node = append(g.Node, &onnx.NodeProto{OpType: fmt.Sprintf("Sym%d", n.op), Input: n.in, Output: n.out, Attribute: []*onnx.AttributeProto{
+		// two nodes in three carry a name (unique, or the same for all): a name may not matter
+		name := []string{"", fmt.Sprintf("node_%d", ni), "n"}[(ni+len(c.inputs))%3]
+		g.Node = append(g.Node, &onnx.NodeProto{Name: name, OpType: fmt.Sprintf("Sym%d", n.op), Input: n.in, Output: n.out, Attribute: []*onnx.AttributeProto{
 			{Name: "attr", I: n.attr, Type: onnx.AttributeProto_INT}, {Name: "nout", I: int64(n.nout), Type: onnx.AttributeProto_INT}, {Name: "fail", I: fl, Type: onnx.AttributeProto_INT}}})
 	}
 	return &onnx.ModelProto{OpsetImport: []*onnx.OperatorSetIdProto{{Version: c.opset}}, Graph: g}
